@@ -15,7 +15,7 @@ type seqOp struct {
 	alias string // "", "self", "view": how the operand is passed
 }
 
-var opTimeout = 3 * time.Second
+var opTimeout = 5 * time.Second
 
 // seqTarget runs operations on one real List (or Array) and reports observations.
 type heldView[V any] struct {
